@@ -186,7 +186,16 @@ def snapshot(w, hidden=True):
     if hidden:
         # only a proxy that remembers a wire carries state; a fresh one is as good as none
         prox = tuple(sorted((k, w.index.get(id(p._wire))) for k, p in w.proxies.items() if p._wire is not None))
-        res = (res, hidden_tables(w) + (prox,))
+        # a collection the caller holds that has become a container's own list is a different state (edits of the
+        # one show in the other) although nothing differs yet
+        alias = []
+        for hi, h in enumerate(w.held):
+            if isinstance(h, list):
+                for i, o in enumerate(w.pool):
+                    for attr in ("_libraries", "_definitions", "_ports", "_cables", "_children", "_pins", "_wires"):
+                        if getattr(o, attr, None) is h:
+                            alias.append((hi, i, attr))
+        res = (res, hidden_tables(w) + (prox, tuple(alias)))
     return res
 
 
